@@ -96,3 +96,488 @@ def templates(draw):
             reps.append([find, repl])
         key_patterns.append([sel, reps])
     return {"sid_templates": [list(e) for e in entries], "to_extrapolate": to_extrapolate, "key_patterns": key_patterns}
+
+
+# ================================================================================================
+# Configuration packages (C20)
+# ================================================================================================
+"""
+A Spec describes a whole configuration in the style of the demo one:
+
+  project level (closed vocabulary, mapped to folder names)
+  type level    (one code per basetype, mapped to a folder name)
+  per basetype: a chain of levels (closed / digits / free), a 'state' like mapped closed level, leaf groups
+                (each with its own extension vocabulary) and optionally a side branch (an extra free level before the leaf,
+                for one of the leaf groups)
+  path layout:  root/{project}/<fixed>/{type}/<folders...>/<file name built from some levels with a separator>.{leaf}
+"""
+
+DEMO_SPEC = {
+    "keys": {"project": "project", "type": "type", "state": "state", "version": "version", "leaf": "ext", "node": "node"},
+    "projects": {"hamlet": "HAMLET"},
+    "fixed_folder": "PROD",
+    "sep": "_",
+    "states": {"w": "WORK", "p": "PUBLISH"},
+    "version": ["v", 3],
+    "basetypes": [
+        {"name": "asset", "code": "a", "folder": "ASSETS", "out_folder": "OUTPUT",
+         "levels": [{"key": "assettype", "kind": "closed", "values": ["char", "location", "prop", "fx"], "constants": True},
+                    {"key": "asset", "kind": "free"},
+                    {"key": "task", "kind": "closed", "values": ["art", "model", "surface", "rig"]}],
+         "joined": [],   # indices (into levels) of levels whose folder name is the join of the previous level and itself
+         "side_branch": False},
+        {"name": "shot", "code": "s", "folder": "SHOTS", "out_folder": "EXPORT",
+         "levels": [{"key": "sequence", "kind": "digits", "prefix": "sq", "width": 3},
+                    {"key": "shot", "kind": "digits", "prefix": "sh", "width": 4},
+                    {"key": "task", "kind": "closed", "values": ["board", "layout", "anim", "fx", "render", "comp"]}],
+         "joined": [1],
+         "side_branch": True},
+    ],
+    "project_basetype": "project",
+    "groups": {"file": {"name": "scenes", "exts": ["ma", "mb", "hip", "blend", "hou", "psd", "nk", "maya"], "out": False},
+               "movie_file": {"name": "movies", "exts": ["mp4", "mov", "avi", "movie"], "out": True},
+               "cache_file": {"name": "caches", "exts": ["abc", "json", "fur", "grm", "vdb", "cache"], "out": True}},
+    "aliases": {"cache": ["abc", "json", "fur", "grm", "vdb"], "hou": ["hip", "hipnc"], "maya": ["ma", "mb"], "movie": ["mp4", "mov", "avi"]},
+    "path_configs": ["local", "server"],
+    "type_sep": "__",
+}
+
+
+def _pat(values):
+    return "(" + "|".join(values) + r"|\*|\>)"
+
+
+def render_package(spec: dict, target_dir) -> None:
+    """Writes spil_sid_conf.py, spil_fs_conf.py, spil_fs_<cfg>_conf.py and spil_data_conf.py for the Spec."""
+    import os
+    from pathlib import Path
+    K = spec["keys"]
+    pk, tk, sk, vk, lk, nk = K["project"], K["type"], K["state"], K["version"], K["leaf"], K["node"]
+    T = spec.get("type_sep", "__")
+    target = Path(target_dir)
+    target.mkdir(parents=True, exist_ok=True)
+    vprefix, vwidth = spec["version"]
+
+    sid_templates = []       # (name, template)
+    to_extrapolate = []
+    key_patterns = {"": {}}
+    key_types = {}
+    leaf_keys = {}
+    narrowing = {}
+    path_templates = []      # (name, relative template)
+    kp_fs = {"": {}}
+
+    key_patterns[""]["{%s}" % pk] = "{%s:%s}" % (pk, _pat(list(spec["projects"])))
+    kp_fs[""]["{%s}" % pk] = "{%s:%s}" % (pk, _pat(list(spec["projects"].values())))
+    key_patterns[""]["{%s}" % sk] = "{%s:%s}" % (sk, _pat(list(spec["states"])))
+    kp_fs[""]["{%s}" % sk] = "{%s:%s}" % (sk, _pat(list(spec["states"].values())))
+    vexpr = "(" + vprefix + r"\d" * vwidth + r"|\*|\>)"
+    key_patterns[""]["{%s}" % vk] = "{%s:%s}" % (vk, vexpr)
+    for gname, g in spec["groups"].items():
+        key_patterns[""]["{%s:%s}" % (lk, g["name"])] = "{%s:%s}" % (lk, _pat(g["exts"]))
+
+    sep = spec["sep"]
+    fixed = spec["fixed_folder"]
+    for b in spec["basetypes"]:
+        bn, code = b["name"], b["code"]
+        sel = bn + T
+        key_patterns.setdefault(sel, {})
+        key_patterns[""]["{%s:%s}" % (tk, code)] = "{%s:%s}" % (tk, _pat([code]))
+        kp_fs[""]["{%s:%s}" % (tk, b["folder"])] = "{%s:%s}" % (tk, _pat([b["folder"]]))
+        chain = ["{%s}" % pk, "{%s:%s}" % (tk, code)]
+        for lv in b["levels"]:
+            chain.append("{%s}" % lv["key"])
+            if lv["kind"] == "closed":
+                key_patterns[sel]["{%s}" % lv["key"]] = "{%s:%s}" % (lv["key"], _pat(lv["values"]))
+            elif lv["kind"] == "digits":
+                key_patterns[sel]["{%s}" % lv["key"]] = "{%s:(%s|\\*|\\>)}" % (lv["key"], lv["prefix"] + r"\d" * lv["width"])
+        chain += ["{%s}" % vk, "{%s}" % sk]
+        # leaf types
+        for gname, g in spec["groups"].items():
+            sid_templates.append((bn + T + gname, "/".join(chain + ["{%s:%s}" % (lk, g["name"])])))
+        if b.get("side_branch"):
+            g = spec["groups"]["cache_file"] if "cache_file" in spec["groups"] else list(spec["groups"].values())[-1]
+            sid_templates.append((bn + T + "cache_%s_file" % nk, "/".join(chain + ["{%s}" % nk, "{%s:%s}" % (lk, g["name"])])))
+            sid_templates.append((bn + T + "cache_%s" % nk, "/".join(chain + ["{%s}" % nk])))
+        sid_templates.append((bn + T + sk, "/".join(chain)))
+        to_extrapolate.append(bn + T + sk)
+        sid_templates.append((bn, "/".join(chain[:2])))
+        key_types[bn] = [pk, tk] + [lv["key"] for lv in b["levels"]] + [vk, sk] + ([nk] if b.get("side_branch") else []) + [lk]
+        leaf_keys[bn] = lk
+        narrowing[bn] = "%s=~%s" % (tk, code)
+
+        # ---- paths
+        folders = ["{%s}" % pk, fixed, "{%s:%s}" % (tk, b["folder"])]
+        level_folders = []
+        for i, lv in enumerate(b["levels"]):
+            if i in b.get("joined", []) and i > 0:
+                level_folders.append("{%s}%s{%s}" % (b["levels"][i - 1]["key"], sep, lv["key"]))
+            else:
+                level_folders.append("{%s}" % lv["key"])
+        name_levels = [lv["key"] for lv in b["levels"]]
+        fname = sep.join("{%s}" % k for k in name_levels + [sk, vk])
+        vdir = "/".join(folders + level_folders + ["{%s}" % vk])
+        for gname, g in spec["groups"].items():
+            out = (b["out_folder"] + "/") if g["out"] else ""
+            path_templates.append((bn + T + gname, vdir + "/" + out + fname + ".{%s:%s}" % (lk, g["name"])))
+        if b.get("side_branch"):
+            g = spec["groups"]["cache_file"] if "cache_file" in spec["groups"] else list(spec["groups"].values())[-1]
+            fname_node = sep.join("{%s}" % k for k in name_levels + [nk, sk, vk])
+            # the plain cache file of a side-branch basetype drops the last level from its name (as the demo does)
+            path_templates = [pt for pt in path_templates if pt[0] != bn + T + "cache_file"]
+            short = sep.join("{%s}" % k for k in name_levels[:-1] + [sk, vk])
+            path_templates.append((bn + T + "cache_%s_file" % nk, vdir + "/" + b["out_folder"] + "/" + fname_node + ".{%s:%s}" % (lk, g["name"])))
+            if "cache_file" in spec["groups"]:
+                path_templates.append((bn + T + "cache_file", vdir + "/" + b["out_folder"] + "/" + short + ".{%s:%s}" % (lk, g["name"])))
+        path_templates.append((bn + T + vk, vdir))
+        for i in range(len(b["levels"]) - 1, -1, -1):
+            path_templates.append((bn + T + b["levels"][i]["key"], "/".join(folders + level_folders[: i + 1])))
+        path_templates.append((bn, "/".join(folders)))
+
+    pb = spec["project_basetype"]
+    sid_templates.append((pb, "{%s}" % pk))
+    key_types[pb] = [pk]
+    leaf_keys[pb] = lk
+    path_templates.append((pb, "{%s}" % pk))
+
+    def dump(obj):
+        return repr(obj)
+
+    sid_conf = [
+        "sip = '/'",
+        "projects = %s" % dump(list(spec["projects"])),
+        "sid_templates = {",
+    ]
+    sid_conf += ["    %r: %r," % (n, t) for n, t in sid_templates] + ["}"]
+    sid_conf += [
+        "to_extrapolate = %s" % dump(to_extrapolate),
+        "extension_alias = %s" % dump(spec["aliases"]),
+        "key_patterns = %s" % dump(key_patterns),
+        "key_types = %s" % dump(key_types),
+        "leaf_keys = %s" % dump({**leaf_keys, None: lk}),
+        "basetyped_search_narrowing = %s" % dump(narrowing),
+        "typed_search_narrowing = {}",
+    ]
+    (target / "spil_sid_conf.py").write_text("\n".join(sid_conf) + "\n")
+
+    for i, cfg in enumerate(spec["path_configs"]):
+        modname = "spil_fs_conf" if i == 0 else f"spil_fs_{cfg}_conf"
+        lines = [
+            "from pathlib import Path",
+            "project_root_path = Path(__file__).parent / 'data' / 'testing' / 'SPIL_PROJECTS' / %r / 'PROJECTS'" % cfg.upper(),
+            "_root = project_root_path.as_posix()",
+            "path_templates = {",
+        ]
+        lines += ["    %r: _root + '/' + %r," % (n, t) for n, t in path_templates] + ["}"]
+        mapping = {pk: {v: k for k, v in spec["projects"].items()},
+                   tk: {b["folder"]: b["code"] for b in spec["basetypes"]},
+                   sk: {v: k for k, v in spec["states"].items()}}
+        kp = {sel: dict(v) for sel, v in key_patterns.items()}
+        for sel, v in kp_fs.items():
+            kp.setdefault(sel, {}).update(v)
+        # path templates name the type level by folder: the sid-side '{type:code}' patterns are irrelevant here
+        lines += [
+            "path_defaults = {%r: %r}" % (sk, list(spec["states"].values())[0]),
+            "sidkeys_to_extrakeys = {}",
+            "extrakeys_to_sidkeys = {}",
+            "path_mapping = %s" % dump(mapping),
+            "search_path_mapping = {}",
+            "key_patterns = %s" % dump(kp),
+        ]
+        (target / f"{modname}.py").write_text("\n".join(lines) + "\n")
+
+    consts = []
+    for b in spec["basetypes"]:
+        for lv in b["levels"][:1]:
+            if lv.get("constants") and lv["kind"] == "closed":
+                consts.append((b["name"] + T + lv["key"], lv["key"], lv["values"]))
+    data_conf = '''
+from __future__ import annotations
+from pathlib import Path
+
+path_configs = %(path_configs)r
+default_path_config = %(default)r
+
+_finders_by_config = {}
+_getters_by_config = {}
+
+
+def _create_finders():
+    from spil import FindInConstants, FindInPaths
+    finder_paths = FindInPaths()
+    finder_projects = FindInConstants(%(pk)r, %(projects)r)
+    finder_types = FindInConstants(%(tk)r, %(codes)r, parent_source=finder_projects)
+    finder_states = FindInConstants(%(sk)r, %(states)r, parent_source=finder_paths)
+    table = {%(pb)r: finder_projects, 'default': finder_paths}
+    for bn in %(bnames)r:
+        table[bn] = finder_types
+        table[bn + %(T)r + %(sk)r] = finder_states
+    for tname, key, values in %(consts)r:
+        table[tname] = FindInConstants(key, values, parent_source=finder_types)
+    return table
+
+
+def get_finder_for(search_sid, config=None):
+    table = _finders_by_config.get(config)
+    if table is None:
+        table = _create_finders()
+        _finders_by_config[config] = table
+    return table.get(search_sid.type) or table.get('default')
+
+
+def get_getter_for(sid, attribute=None, config=None):
+    from spil import GetFromPaths
+    table = _getters_by_config.get(config)
+    if table is None:
+        table = {'default': GetFromPaths()}
+        for bn in %(bnames)r:
+            table[bn] = None
+        table[%(pb)r] = None
+        _getters_by_config[config] = table
+    if sid.type in table:
+        return table.get(sid.type)
+    return table.get('default')
+
+
+def get_writer_for(sid):
+    raise NotImplementedError()
+
+
+path_data_suffix = '.data.json'
+create_file_using_template = {}
+create_file_using_touch = True
+
+
+def get_data_json_path(sid_path: Path) -> Path:
+    return sid_path.with_name('.' + sid_path.name).with_suffix(path_data_suffix)
+''' % {
+        "path_configs": {cfg: ("spil_fs_conf" if i == 0 else f"spil_fs_{cfg}_conf") for i, cfg in enumerate(spec["path_configs"])},
+        "default": spec["path_configs"][0],
+        "pk": pk, "tk": tk, "sk": sk, "pb": pb, "T": T,
+        "projects": list(spec["projects"]),
+        "codes": [b["code"] for b in spec["basetypes"]],
+        "states": list(spec["states"]),
+        "bnames": [b["name"] for b in spec["basetypes"]],
+        "consts": consts,
+    }
+    (target / "spil_data_conf.py").write_text(data_conf)
+
+
+KEY_RENAMES = {"project": ["project", "prj", "show"], "type": ["type", "kind", "cat"], "state": ["state", "status", "st"],
+               "version": ["version", "ver", "take"], "leaf": ["ext", "fmt", "suffix"], "node": ["node", "layer", "part"]}
+LEVEL_KEY_POOL = ["assettype", "asset", "sequence", "shot", "task", "step", "dept", "name", "episode", "seq", "group", "item"]
+CLOSED_POOLS = [["char", "location", "prop", "fx"], ["art", "model", "surface", "rig"], ["board", "layout", "anim", "fx", "render", "comp"],
+                ["mod", "tex", "shd"], ["k1", "k2"], ["main", "alt", "test", "dev", "x9"]]
+EXT_POOLS = [["ma", "mb", "hip", "blend", "hou", "psd", "nk", "maya"], ["mp4", "mov", "avi", "movie"], ["abc", "json", "fur", "grm", "vdb", "cache"],
+             ["usd", "usda", "usdc", "scene"], ["exr", "png", "jpg", "img"], ["bgeo", "sim", "vdbs", "fxcache"]]
+
+
+@st.composite
+def specs(draw):
+    """A Spec derived from the demo one by a random subset of transformations. Returns (spec, changed dimensions)."""
+    import copy
+    spec = copy.deepcopy(DEMO_SPEC)
+    dims = []
+
+    def chance(p=35):
+        return draw(st.integers(0, 99)) < p
+
+    # 1. key names
+    if chance():
+        for role, opts in KEY_RENAMES.items():
+            spec["keys"][role] = draw(st.sampled_from(opts))
+        if spec["keys"] != DEMO_SPEC["keys"]:
+            dims.append("rename-keys")
+        if spec["keys"]["leaf"] != "ext":
+            dims.append("rename-leaf-key")
+    reserved = set(spec["keys"].values())
+    # 2. basetype names, codes, folders
+    if chance():
+        names = draw(st.lists(st.sampled_from(["asset", "shot", "elem", "plan", "lib", "seq", "as", "sh"]), min_size=2, max_size=2, unique=True))
+        codes = draw(st.lists(st.sampled_from(["a", "s", "x", "y", "e", "lib", "A"]), min_size=2, max_size=2, unique=True))
+        for b, n, c in zip(spec["basetypes"], names, codes):
+            b["name"], b["code"], b["folder"] = n, c, draw(st.sampled_from([n.upper() + "S", "DIR_" + c, n + "_lib"]))
+        spec["project_basetype"] = draw(st.sampled_from(["project", "prj", "root"]))
+        dims.append("rename-basetypes")
+    # 3. levels: rename level keys, swap vocabularies, digit widths, insert / remove a level
+    if chance(45):
+        for b in spec["basetypes"]:
+            used = set(reserved)
+            for lv in b["levels"]:
+                if chance(50):
+                    cand = [k for k in LEVEL_KEY_POOL if k not in used and k != b["name"]]
+                    lv["key"] = draw(st.sampled_from(cand))
+                used.add(lv["key"])
+                if lv["kind"] == "closed" and chance(50):
+                    lv["values"] = list(draw(st.sampled_from(CLOSED_POOLS)))
+                if lv["kind"] == "digits" and chance(50):
+                    lv["prefix"] = draw(st.sampled_from(["sq", "sh", "s", "ep", "e", ""]))
+                    lv["width"] = draw(st.integers(1, 4))
+            # unique keys inside the basetype
+            seen, uniq = set(reserved), []
+            for lv in b["levels"]:
+                if lv["key"] in seen:
+                    lv["key"] = lv["key"] + "2"
+                seen.add(lv["key"])
+        dims.append("levels-renamed-or-revalued")
+    if chance(25):
+        b = spec["basetypes"][draw(st.integers(0, len(spec["basetypes"]) - 1))]
+        if chance(50) and len(b["levels"]) > 1:
+            i = draw(st.integers(0, len(b["levels"]) - 1))
+            del b["levels"][i]
+            b["joined"] = []
+            dims.append("level-removed")
+        else:
+            keys_used = {lv["key"] for lv in b["levels"]} | reserved
+            k = draw(st.sampled_from([x for x in LEVEL_KEY_POOL if x not in keys_used and x != b["name"]]))
+            kind = draw(st.sampled_from(["closed", "digits"]))
+            lv = {"key": k, "kind": kind}
+            if kind == "closed":
+                lv["values"] = list(draw(st.sampled_from(CLOSED_POOLS)))
+            else:
+                lv["prefix"], lv["width"] = draw(st.sampled_from(["d", "ep", ""])), draw(st.integers(1, 3))
+            b["levels"].insert(draw(st.integers(0, len(b["levels"]))), lv)
+            b["joined"] = []
+            dims.append("level-inserted")
+    # a digits level with an empty prefix next to the version would still be exclusive by position: fine.
+    for b in spec["basetypes"]:
+        nfree = sum(1 for lv in b["levels"] if lv["kind"] == "free")
+        if nfree:
+            b["side_branch"] = False if b.get("side_branch") and nfree else b.get("side_branch", False)
+        b["joined"] = [i for i in b.get("joined", []) if 0 < i < len(b["levels"]) and b["levels"][i]["kind"] != "free" and b["levels"][i - 1]["kind"] != "free"]
+        for lv in b["levels"]:
+            lv.pop("constants", None)
+        if b["levels"] and b["levels"][0]["kind"] == "closed":
+            b["levels"][0]["constants"] = True
+    if chance(20):
+        b = spec["basetypes"][draw(st.integers(0, len(spec["basetypes"]) - 1))]
+        if not any(lv["kind"] == "free" for lv in b["levels"]):
+            b["side_branch"] = not b.get("side_branch")
+            dims.append("side-branch-toggled")
+    # 4. states, version, projects
+    if chance():
+        spec["states"] = draw(st.sampled_from([{"w": "WORK", "p": "PUBLISH"}, {"wip": "W", "pub": "P"}, {"w": "w", "p": "p", "r": "REVIEW"}, {"a": "A"}]))
+        dims.append("states")
+    if chance():
+        spec["version"] = [draw(st.sampled_from(["v", "V", "r", ""])), draw(st.integers(2, 4))]
+        dims.append("version-pattern")
+    if chance(25):
+        spec["projects"] = draw(st.sampled_from([{"hamlet": "HAMLET"}, {"hamlet": "HAMLET", "othello": "OTH"}, {"p1": "p1"}]))
+        dims.append("projects")
+    # 5. separators and folders
+    if chance():
+        spec["sep"] = draw(st.sampled_from(["_", "-", "__", "--"]))
+        spec["fixed_folder"] = draw(st.sampled_from(["PROD", "work", "01_PROD", "a/b"]))
+        for b in spec["basetypes"]:
+            b["out_folder"] = draw(st.sampled_from(["OUTPUT", "EXPORT", "out", "_o"]))
+        dims.append("separators-and-folders")
+    # 6. leaf groups, extensions, aliases
+    if chance():
+        pools = draw(st.permutations(EXT_POOLS))
+        for (gname, g), pool in zip(spec["groups"].items(), pools):
+            g["exts"] = list(pool)
+        if chance(30) and "movie_file" in spec["groups"]:
+            del spec["groups"]["movie_file"]
+        aliases = {}
+        for g in spec["groups"].values():
+            name = g["exts"][-1]
+            members = g["exts"][: draw(st.integers(1, len(g["exts"]) - 1))]
+            aliases[name] = members
+            if chance(30):
+                aliases[g["exts"][-2]] = [g["exts"][0], "zz" + g["exts"][0]]
+        spec["aliases"] = aliases
+        dims.append("extensions-and-aliases")
+    # 7. third basetype
+    if chance(20):
+        used_names = {b["name"] for b in spec["basetypes"]} | {spec["project_basetype"]}
+        used_codes = {b["code"] for b in spec["basetypes"]}
+        n = draw(st.sampled_from([x for x in ["render", "lib", "edit"] if x not in used_names]))
+        c = draw(st.sampled_from([x for x in ["r", "l", "z"] if x not in used_codes]))
+        spec["basetypes"].append({"name": n, "code": c, "folder": n.upper(), "out_folder": "OUT",
+                                  "levels": [{"key": "dept", "kind": "closed", "values": ["lgt", "cmp"], "constants": True},
+                                             {"key": "item", "kind": "free"}],
+                                  "joined": [], "side_branch": False})
+        # keys must not clash with reserved names
+        for lv in spec["basetypes"][-1]["levels"]:
+            if lv["key"] in reserved:
+                lv["key"] += "x"
+        dims.append("third-basetype")
+    # 8. third path configuration
+    if chance(20):
+        spec["path_configs"] = ["local", "server", "cloud"]
+        dims.append("third-path-config")
+    # level keys must not clash with the (possibly renamed) reserved keys
+    for b in spec["basetypes"]:
+        for lv in b["levels"]:
+            if lv["key"] in reserved:
+                lv["key"] = lv["key"] + "_l"
+    return {"spec": spec, "dims": dims}
+
+
+def canonical_specs():
+    """Deterministic members of the family: the demo Spec and one Spec per single transformation dimension."""
+    import copy
+    out = [({"spec": copy.deepcopy(DEMO_SPEC), "dims": []})]
+
+    def variant(dim, fn):
+        s = copy.deepcopy(DEMO_SPEC)
+        fn(s)
+        out.append({"spec": s, "dims": [dim, dim + "(canonical)"]})
+
+    variant("rename-leaf-key", lambda s: s["keys"].update({"leaf": "fmt"}))
+    variant("rename-keys", lambda s: s["keys"].update({"project": "show", "type": "kind", "state": "status", "version": "take", "leaf": "suffix", "node": "layer"}))
+
+    def rename_bt(s):
+        s["basetypes"][0].update({"name": "elem", "code": "e", "folder": "ELEMS"})
+        s["basetypes"][1].update({"name": "plan", "code": "x", "folder": "DIR_x"})
+        s["project_basetype"] = "root"
+    variant("rename-basetypes", rename_bt)
+
+    def levels(s):
+        lv = s["basetypes"][0]["levels"]
+        lv[0].update({"key": "group", "values": ["mod", "tex", "shd"]})
+        lv[1]["key"] = "name"
+        lv[2].update({"key": "step", "values": ["main", "alt", "test", "dev", "x9"]})
+        sv = s["basetypes"][1]["levels"]
+        sv[0].update({"key": "episode", "prefix": "ep", "width": 2})
+        sv[1].update({"key": "seq", "prefix": "", "width": 3})
+    variant("levels-renamed-or-revalued", levels)
+
+    def removed(s):
+        del s["basetypes"][0]["levels"][0]
+        s["basetypes"][0]["levels"][0]["kind"] = "free"
+    variant("level-removed", removed)
+
+    def inserted(s):
+        s["basetypes"][1]["levels"].insert(2, {"key": "dept", "kind": "closed", "values": ["k1", "k2"]})
+        s["basetypes"][1]["joined"] = [1]
+    variant("level-inserted", inserted)
+    variant("states", lambda s: s.update({"states": {"wip": "W", "pub": "P", "r": "REVIEW"}}))
+    variant("version-pattern", lambda s: s.update({"version": ["", 2]}))
+    variant("projects", lambda s: s.update({"projects": {"hamlet": "HAMLET", "othello": "OTH"}}))
+
+    def seps(s):
+        s["sep"] = "--"
+        s["fixed_folder"] = "a/b"
+        for b in s["basetypes"]:
+            b["out_folder"] = "_o"
+    variant("separators-and-folders", seps)
+
+    def exts(s):
+        s["groups"]["file"]["exts"] = ["usd", "usda", "usdc", "scene"]
+        s["groups"]["movie_file"]["exts"] = ["exr", "png", "jpg", "img"]
+        s["groups"]["cache_file"]["exts"] = ["bgeo", "sim", "vdbs", "fxcache"]
+        s["aliases"] = {"scene": ["usd", "usda"], "img": ["exr", "png", "zzexr"], "fxcache": ["bgeo"], "vdbs": ["bgeo", "sim"]}
+    variant("extensions-and-aliases", exts)
+
+    def third(s):
+        s["basetypes"].append({"name": "render", "code": "r", "folder": "RENDER", "out_folder": "OUT",
+                               "levels": [{"key": "dept", "kind": "closed", "values": ["lgt", "cmp"], "constants": True}, {"key": "item", "kind": "free"}],
+                               "joined": [], "side_branch": False})
+    variant("third-basetype", third)
+    variant("third-path-config", lambda s: s.update({"path_configs": ["local", "server", "cloud"]}))
+
+    def side(s):
+        s["basetypes"][1]["side_branch"] = False
+    variant("side-branch-toggled", side)
+    return out
